@@ -137,7 +137,10 @@ class BeautifulSoupHTMLParser(HTMLParser, DetectsXMLParsedAsHTML):
         # know that this is an empty-element tag, and we want to call
         # handle_endtag ourselves.
         self.handle_starttag(name, attrs, handle_empty_element=False)
-        self.handle_endtag(name)
+        # The end-tag event belongs to the tag we just opened: it must not be
+        # mistaken for the redundant closing tag of an earlier <tag> of the
+        # same name that was closed automatically.
+        self.handle_endtag(name, check_already_closed=False)
 
     def handle_starttag(
         self,
